@@ -258,6 +258,18 @@ func (f *Facts) summarise(fn *types.Func, bound map[int]*Table) *Summary {
 		}
 		e[pv] = SParam{pv}
 	}
+	// named results start as the zero value of their type (func f(..) (v T) { ...; return v })
+	for i := 0; i < sig.Results().Len(); i++ {
+		rv := sig.Results().At(i)
+		if rv.Name() == "" || rv.Name() == "_" {
+			continue
+		}
+		if tp, isTP := rv.Type().(*types.TypeParam); isTP {
+			e[rv] = SZeroTP{TP: tp}
+		} else if z := f.ZeroOf(rv.Type()); z.Kind != VInvalid {
+			e[rv] = SConst{z}
+		}
+	}
 	func() {
 		defer func() {
 			if r := recover(); r != nil {
@@ -1417,11 +1429,15 @@ func (f *Facts) eval(s Sum, b map[*types.Var]Value) Value {
 			}
 		}
 		if x.Float {
-			// exact comparison of two constants (a tenth is a rational here; a threshold is what the source writes)
+			// comparison of two constants as the program makes it: both are float64 values (a score is the float64
+			// nearest to its tenth, a threshold the float64 nearest to what the source writes - comparing the exact
+			// rationals instead would place the score 6.9 below a threshold written 6.9)
 			if av.Kind == VConst && bv.Kind == VConst && av.C != nil && bv.C != nil {
 				ak, bk := av.C.Kind(), bv.C.Kind()
 				if (ak == constant.Int || ak == constant.Float) && (bk == constant.Int || bk == constant.Float) {
-					return boolVal(constant.Compare(av.C, x.Op, bv.C))
+					af, _ := constant.Float64Val(constant.ToFloat(av.C))
+					bf, _ := constant.Float64Val(constant.ToFloat(bv.C))
+					return boolVal(constant.Compare(constant.MakeFloat64(af), x.Op, constant.MakeFloat64(bf)))
 				}
 			}
 			return Value{Kind: VInvalid, Why: fmt.Sprintf("ordered comparison of %s and %s", av, bv)}
